@@ -1089,8 +1089,10 @@ func (c *Ctx) checkConfigSemantics(r *Report, ro *Roles, rule string) bool {
 				appenders = append(appenders, &plugins[i])
 			}
 		}
+		var lastIP *Interp
 		refresh := func(cfg map[string]string) string {
 			ip, _ := w.interp()
+			lastIP = ip
 			nRefresh++
 			// with tasks and channels: workers a logger starts are parked tasks, and a Refresh that waits for something
 			// that never comes (a Stop of a logger that was never started, …) shows as a task that does not finish
@@ -1168,6 +1170,31 @@ func (c *Ctx) checkConfigSemantics(r *Report, ro *Roles, rule string) bool {
 					if out := refresh(cfg); out != "ok" && out != "ood" {
 						fail("Refresh with a minimal configuration of logger type %s (as %s) and appender type %s: %s (%v)", lg.name, lname, ap.name, out, cfg)
 					}
+				}
+			}
+			// "every appender of the logger": two references to two appenders, the first with a range disjoint from the
+			// logger's own (no event can take it — a raw write must). After Refresh every declared appender must still be
+			// reachable from the created logger (whatever structure holds it): one that is not can receive nothing.
+			if oodWhy == "" && hasRefs(lg) && len(appenders) > 0 {
+				ap := appenders[0]
+				cfg := mk(lg, ap, "l1")
+				for k, v := range cfg {
+					if strings.HasPrefix(k, "appender.a1.") {
+						cfg["appender.a2."+strings.TrimPrefix(k, "appender.a1.")] = v
+					}
+				}
+				cfg["logger.l1.level"] = "warn"
+				cfg["logger.l1.appenderRef[0].ref"] = "a1"
+				cfg["logger.l1.appenderRef[0].level"] = "debug~info"
+				cfg["logger.l1.appenderRef[1].ref"] = "a2"
+				if out := refresh(cfg); out == "ok" {
+					if miss, why := w.unreachableAppenders(lastIP, lg.T); why != "" {
+						r.Inconclusive(key+"#refs-kept:"+lg.name, "%s", why)
+					} else if miss > 0 {
+						fail("Refresh of logger type %s (level warn) with references a1 (debug~info) and a2: %d of the 2 declared appenders is no longer reachable from the created logger — a raw Write through the logger cannot reach it (%v)", lg.name, miss, cfg)
+					}
+				} else if out != "ood" {
+					fail("Refresh of logger type %s with two appender references, the first with a range disjoint from the logger's: %s (%v)", lg.name, out, cfg)
 				}
 			}
 			// the same logger written inline in snake_case
@@ -1451,4 +1478,116 @@ func (c *Ctx) checkCamelSemantics(r *Report, rule string) bool {
 	}
 	r.OK(key, "%d evaluations: total (no run-time panic) on every string of length ≤ 4 over %q; camelCase, kebab-case and snake_case spellings of %d well-formed keys (1–3 segments of 1–3 words, indexed, inline '!') normalise to the camelCase spelling", n, string(alphabet), len(keys))
 	return true
+}
+
+
+// unreachableAppenders: after a Refresh in ip, how many of the appenders held in the package's appender list cannot be
+// reached from the created logger of struct type T (object graph walk: pointers, fields, slices within their bounds,
+// interfaces, maps, closures). why != "" when the lists cannot be identified.
+func (w *cfgWorld) unreachableAppenders(ip *Interp, T types.Type) (int, string) {
+	leaf := map[string]bool{}
+	for _, a := range w.ro.LeafAppenders {
+		leaf[a.Obj().Name()] = true
+	}
+	var loggerObjs, appenderObjs []*Obj
+	ifaceSlice := func(v AV) []AV {
+		sv, ok := v.(*SliceV)
+		if !ok || sv.B == nil {
+			return nil
+		}
+		var out []AV
+		for i := sv.Lo; i < sv.Hi && i < len(sv.B.cells); i++ {
+			out = append(out, sv.B.cells[i].V)
+		}
+		return out
+	}
+	for g, o := range ip.Globals {
+		if g.Pkg != w.c.LogS || o == nil {
+			continue
+		}
+		st, ok := o.V.(*StructV)
+		if !ok {
+			continue
+		}
+		for _, f := range st.F {
+			for _, e := range ifaceSlice(f) {
+				iv, ok := e.(*IfaceV)
+				if !ok {
+					continue
+				}
+				pt, ok := iv.T.(*types.Pointer)
+				p, ok2 := iv.V.(*Ptr)
+				if !ok || !ok2 || p.O == nil {
+					continue
+				}
+				switch {
+				case types.Identical(pt.Elem(), T):
+					loggerObjs = append(loggerObjs, p.O)
+				default:
+					if nt, ok := pt.Elem().(*types.Named); ok && leaf[nt.Obj().Name()] {
+						appenderObjs = append(appenderObjs, p.O)
+					}
+				}
+			}
+		}
+	}
+	if len(loggerObjs) == 0 || len(appenderObjs) < 2 {
+		return 0, fmt.Sprintf("cannot identify the created logger and its two appenders in the package state after Refresh (%d loggers of type %s, %d appenders found)", len(loggerObjs), rtypeString(T), len(appenderObjs))
+	}
+	seen := map[*Obj]bool{}
+	var walk func(v AV, depth int)
+	walk = func(v AV, depth int) {
+		if depth > 40 {
+			return
+		}
+		switch x := v.(type) {
+		case *Ptr:
+			if x.O != nil && !seen[x.O] {
+				seen[x.O] = true
+				walk(x.O.V, depth+1)
+			}
+		case *StructV:
+			for _, f := range x.F {
+				walk(f, depth+1)
+			}
+		case *ArrV:
+			for _, c := range x.C {
+				if c != nil && !seen[c] {
+					seen[c] = true
+					walk(c.V, depth+1)
+				}
+			}
+		case *SliceV:
+			if x.B != nil {
+				for i := x.Lo; i < x.Hi && i < len(x.B.cells); i++ {
+					walk(x.B.cells[i].V, depth+1)
+				}
+			}
+		case *IfaceV:
+			walk(x.V, depth+1)
+		case *MapV:
+			for _, e := range x.M {
+				walk(e, depth+1)
+			}
+		case *Closure:
+			for _, f := range x.Free {
+				walk(f, depth+1)
+			}
+		case TupleV:
+			for _, f := range x {
+				walk(f, depth+1)
+			}
+		}
+	}
+	for _, lo := range loggerObjs {
+		seen[lo] = true
+		walk(lo.V, 0)
+	}
+	miss := 0
+	for _, ao := range appenderObjs {
+		if !seen[ao] {
+			miss++
+		}
+	}
+	return miss, ""
 }
